@@ -36,12 +36,12 @@ RULE = (
     "re-snapshot identical, valid JSON, snapshot dict unchanged after the source runs on, and for every event of the "
     "alphabet step(original) == step(restored) == step(restored twice) on canonical state and action trace; (B) all "
     "single-point corruptions of snapshot texts (every prefix, every key deleted, every value x 6 wrong JSON types, every "
-    "state id unknown) must raise an XStateMachineError or leave an interpreter equal to the uncorrupted restore; "
+    "state id unknown, the id lists emptied singly / together / with the other one missing) must raise an XStateMachineError or leave an interpreter equal to the uncorrupted restore; "
     "distinct_nontrivial = distinct (machine, engine, state) crash points + distinct corruptions"
 )
 BOUNDS = {
-    "quick": "TREE(N<=3) + a two-history-owner tree + ACTOR and ACTORF machines; corruptions of 3 base snapshots",
-    "thorough": "TREE(N<=4) + a two-history-owner tree + ACTOR and ACTORF machines; corruptions of 6 base snapshots",
+    "quick": "TREE(N<=3) + a two-history-owner tree + 3 history-in-parallel trees with reversed key order and again under the dotted machine id m.v2 + ACTOR, ACTORF and ACTORG (grandchild with a systemId) machines, 30 virtual ms after every operation; corruptions of 3 base snapshots",
+    "thorough": "TREE(N<=4) + a two-history-owner tree + reversed-key and dotted-machine-id trees + ACTOR, ACTORF and ACTORG machines; corruptions of 6 base snapshots",
 }
 ASSUMPTIONS = [
     "pending timers and in-flight services are excluded (documented); machines here have none",
@@ -118,6 +118,26 @@ def actorf_cfg() -> Dict[str, Any]:
     }
 
 
+def kidg_machine():
+    """A child that spawns a GRANDCHILD registering a systemId of its own (the registry is global to the hierarchy)."""
+    grand = create_machine(
+        {"id": "grand", "initial": "p", "context": {"n": 0},
+         "states": {"p": {"on": {"POKE": {"actions": [A.assign(lambda a: {"n": (a["context"]["n"] + 1) % 2})]}}}}},
+        logic=MachineLogic())
+    return create_machine(
+        {"id": "kidg", "initial": "x",
+         "states": {"x": {"on": {"GRAND": {"actions": [A.spawn_child("grand", actor_id="g", system_id="sysg")]}}}}},
+        logic=MachineLogic(services={"grand": grand}))
+
+
+def actorg_cfg() -> Dict[str, Any]:
+    return {"id": "m", "initial": "a", "states": {"a": {}},
+            "on": {"SPAWNG": {"actions": [A.spawn_child("kidg", actor_id="k1"), "tr:spawng"]},
+                   "GRAND": {"actions": [A.send_to("k1", "GRAND"), "tr:grand"]},
+                   "PINGG": {"actions": [A.send_to("sysg", "POKE"), "tr:pingg"]}}}
+
+
+ACTORG_EVENTS = ["SPAWNG", "GRAND", "PINGG"]
 ACTORF_EVENTS = ["MODE", "SPAWN3", "PING3"]
 ACTOR_EVENTS = ["GO", "N", "BACK", "SPAWN", "SPAWN2", "PING", "PING2", "KILL", "HIST", "INC"]
 
@@ -384,6 +404,20 @@ def run_corruptions(base_hists: List[List[str]]) -> Dict[str, Any]:
                 must = kind == "unknown-id" or (kind == "type" and path[-1] in ("status", "configuration", "state_ids", "context")) \
                     or (kind == "delete" and path[-1] in ("status", "context"))
                 attempt(text, f"{kind} {key} -> {val!r}", len(path), must)
+            # emptied id lists (the right JSON type, no content): singly, together, and with the other key missing
+            DEL = object()
+            for what, edit in (("configuration=[]", {"configuration": []}), ("state_ids=[]", {"state_ids": []}),
+                               ("configuration=[]+state_ids=[]", {"configuration": [], "state_ids": []}),
+                               ("configuration=[]+state_ids-deleted", {"configuration": [], "state_ids": DEL}),
+                               ("state_ids=[]+configuration-deleted", {"state_ids": [], "configuration": DEL})):
+                c = copy.deepcopy(base)
+                for k, v in edit.items():
+                    if v is DEL:
+                        c.pop(k, None)
+                    else:
+                        c[k] = v
+                no_ids = not (c.get("configuration") or c.get("state_ids"))
+                attempt(json.dumps(c), f"empty {what}", 2, no_ids and base.get("status") == "running")
     res["states"] = res["executions"]
     res["transitions"] = res["executions"]
     res["samples"].append(dict(kind="corruptions", base_histories=base_hists, attempts=res["evaluations"]))
@@ -402,6 +436,9 @@ def units(tier: str) -> List[Any]:
     if tier == "thorough":
         rev += [t for t in F.trees_upto(4) if any(k in ("Hs", "Hd") for k in F.tree_kinds(t)) and "P" in F.tree_kinds(t) and t not in rev]
     us += [("tree-rev", t) for t in rev]
+    # a machine id that itself contains a dot ("m.v2"): every state id then has one more dot than its depth
+    us += [("tree-dot", t) for t in rev]
+    us.append(("actorg", None))
     us.append(("actor", None))
     us.append(("actorf", None))
     bases = [["GO", "N", "BACK", "SPAWN"], ["SPAWN", "SPAWN2", "PING"], ["GO", "N"]]
@@ -422,12 +459,15 @@ def run_unit(unit):
 
 def _run_unit(unit):
     kind, payload = unit
-    if kind in ("tree", "tree-rev"):
-        cfg, nodes, events = F.universal_config(payload, reenter_all=False, naming="prefix" if kind == "tree" else "reversed")
+    if kind == "actorg":
+        return explore_machine(actorg_cfg(), ACTORG_EVENTS, "ACTORG", services={"kidg": kidg_machine()})
+    if kind in ("tree", "tree-rev", "tree-dot"):
+        cfg, nodes, events = F.universal_config(payload, reenter_all=False, naming="reversed" if kind == "tree-rev" else "prefix",
+                                                root_id="m.v2" if kind == "tree-dot" else "m")
         cfg["context"] = {"k": 0}
         F.cfg_node(cfg, nodes[0]).setdefault("on", {})["INC"] = {"actions": [A.assign(lambda a: {"k": (a["context"]["k"] + 1) % 2})]}
         evs = [n for n, e in events.items() if e["kind"] == "T"] + ["INC"]
-        return explore_machine(cfg, evs, F.tree_str(payload) + ("" if kind == "tree" else " (keys z,y,x,...)"))
+        return explore_machine(cfg, evs, F.tree_str(payload) + {"tree": "", "tree-rev": " (keys z,y,x,...)", "tree-dot": " (machine id m.v2)"}[kind])
     if kind == "actor":
         return explore_machine(actor_cfg(), ACTOR_EVENTS, "ACTOR", services={"kid": kid_machine()})
     if kind == "actorf":
